@@ -105,6 +105,43 @@ def written_name(kind, target):
     return ('attr', re.sub(r'\[\.\.\]', '', t).split('.')[-1])
 
 
+def fresh_argument_everywhere(cg, q, target):
+    """q mutates its parameter (record target `p.method()` / `p[..]` / `p`): True when every call of q in the program
+    passes, in that position, a local name of the caller that is bound only to freshly built values"""
+    import re
+    pname = re.split(r'[.\[ ]', target.strip())[0]
+    node = cg.funcs.get(q)
+    if node is None:
+        return False
+    params = [a.arg for a in node.args.posonlyargs + node.args.args]
+    if pname not in params:
+        return False
+    pos = params.index(pname)
+    short = q.split('.')[-1]
+    is_method = '.' in q
+    sites = 0
+    for cq, cn in cg.funcs.items():
+        cparams = {a.arg for a in cn.args.posonlyargs + cn.args.args + cn.args.kwonlyargs}
+        for c in ast.walk(cn):
+            if not isinstance(c, ast.Call):
+                continue
+            f = c.func
+            name = f.id if isinstance(f, ast.Name) else f.attr if isinstance(f, ast.Attribute) else None
+            if name != short:
+                continue
+            sites += 1
+            k = pos - (1 if is_method and isinstance(f, ast.Attribute) else 0)
+            arg = c.args[k] if 0 <= k < len(c.args) else next((kw.value for kw in c.keywords if kw.arg == pname), None)
+            if not isinstance(arg, ast.Name) or arg.id in cparams:
+                return False
+            binds = [a.value for a in ast.walk(cn) if isinstance(a, ast.Assign)
+                     and any(isinstance(t, ast.Name) and t.id == arg.id for t in a.targets)]
+            if not binds or not all(isinstance(v, (ast.Call, ast.List, ast.ListComp, ast.Tuple, ast.Dict, ast.Constant,
+                                                  ast.BinOp)) for v in binds):
+                return False
+    return sites > 0
+
+
 def phases_of(q, cg, callers, seen=None):
     """classification of a function by the rules above; a function the rules do not name (a helper introduced by a
     refactoring) inherits the classes of its callers"""
@@ -153,6 +190,11 @@ def t_inventory(eng):
                 continue
             new.append((q, w))
     eng.notes.append('inventory: %d write records in %d functions' % (sum(len(v) for v in inv.values()), len(inv)))
+    # a helper that mutates one of its parameters touches persistent state only if a caller hands it some: accepted when
+    # every call site passes a local that the caller itself has just built (call result, literal, comprehension)
+    for q, w in list(new):
+        if w[0].endswith('-param') and fresh_argument_everywhere(cg, q, w[1]):
+            new.remove((q, w))
     # a new plain attribute store whose attribute is read nowhere in the program cannot carry history into a result
     all_reads = cg.attr_reads(cg.funcs.keys())
     harmless = []
@@ -188,19 +230,20 @@ def t_compute_outputs(eng):
     """assigns clauses: attribute-level frame of the stages"""
     n = P + '/assigns/'
     inv = full_inventory(eng.repo, eng.fn_override)
+    # declared outputs by attribute name (how the store is spelled -- Z[j][j], Z[j, j], through a local -- is irrelevant)
     declared = {
-        'Mininec.compute': {'self.power'},
-        'Mininec.compute_currents': {'self.current'},
-        'Mininec.compute_rhs': {'self.rhs'},
-        'Mininec.compute_impedance_matrix_loads': {'self.Z[..][..]'},
-        'Mininec.compute_far_field': {'self.far_field', 'self.far_field_angles', 'self.ff_dist', 'self.ff_power'},
-        'Mininec.compute_near_field': {'self.e_field', 'self.h_field', 'self.near_field_coord', 'self.nf_param',
-                                       'self.nf_power', 'self.e_field.append()', 'self.h_field.append()'},
-        'Mininec.compute_impedance_matrix': {'self.Z', 'self.Z[..]', 'self.Z.T[..]'},
+        'Mininec.compute': {'power'},
+        'Mininec.compute_currents': {'current'},
+        'Mininec.compute_rhs': {'rhs'},
+        'Mininec.compute_impedance_matrix_loads': {'Z'},
+        'Mininec.compute_far_field': {'far_field', 'far_field_angles', 'ff_dist', 'ff_power'},
+        'Mininec.compute_near_field': {'e_field', 'h_field', 'near_field_coord', 'nf_param', 'nf_power'},
+        'Mininec.compute_impedance_matrix': {'Z', 'T'},
     }
     for q, allowed in declared.items():
-        got = set(t for k, t in inv.get(q, []))
-        eng.oblige(n + q + '-writes-only-its-declared-outputs', got <= allowed, detail=str(sorted(got - allowed)))
+        got = set(written_name(k, t) for k, t in inv.get(q, []))
+        bad = sorted(str(x) for x in got if not (x[0] == 'attr' and x[1] in allowed))
+        eng.oblige(n + q + '-writes-only-its-declared-outputs', not bad, detail=str(bad))
     # numeric kernels and writers write no attribute at all
     pure = ['Mininec.integral_i2_i3', 'Mininec.fast_quad', 'Mininec.scalar_potential', 'Mininec.vector_potential',
             'Mininec.psi_near_field_56', 'Mininec.nf_helper', 'Mininec.image_iter', 'Mininec.near_field_iter',
